@@ -17,6 +17,9 @@
 //! * monitor       : `append` leaves the other vector empty (or untouched on panic),
 //!   `len <= capacity`.
 //!
+//! Optional: `--budget-secs N` stops the enumeration after N seconds (stats then say
+//! `"exhaustive": false`).
+//!
 //! Exit code 0 = no disagreement, 1 = disagreement(s), 2 = internal error.
 
 use std::any::Any;
@@ -1805,7 +1808,8 @@ fn random_op(rng: &mut Rng, v: View, sizes: &[usize]) -> Op {
 
 #[derive(Clone, Debug)]
 enum Mode {
-    Exhaustive { depth: usize },
+    /// `start`: 0 = from empty, 1 = from `cap - 1` elements, 2 = from `cap` elements.
+    Exhaustive { depth: usize, start: usize },
     Random { sequences: usize, length: usize, seed: u64 },
 }
 
@@ -1848,6 +1852,21 @@ fn hash_lines(cfg: &str, path: &[Op], op: &Op) -> u64 {
 }
 
 const MAX_DISAGREEMENTS_PER_JOB: usize = 6;
+
+/// Optional wall-clock budget (`--budget-secs N`): when it is exceeded the enumeration stops
+/// early and the run is reported as not exhaustive.
+static DEADLINE: std::sync::OnceLock<std::time::Instant> = std::sync::OnceLock::new();
+static TRUNCATED: std::sync::atomic::AtomicBool = std::sync::atomic::AtomicBool::new(false);
+
+fn out_of_time() -> bool {
+    match DEADLINE.get() {
+        Some(d) if std::time::Instant::now() > *d => {
+            TRUNCATED.store(true, std::sync::atomic::Ordering::Relaxed);
+            true
+        }
+        _ => false,
+    }
+}
 
 struct Worker<'a> {
     session: Session,
@@ -1908,7 +1927,7 @@ impl Worker<'_> {
         self.rebuild(path);
         let ops = alphabet(self.view(), self.session.rig.array_sizes, path.len());
         for op in ops {
-            if self.found >= MAX_DISAGREEMENTS_PER_JOB {
+            if self.found >= MAX_DISAGREEMENTS_PER_JOB || out_of_time() {
                 return Ok(());
             }
             self.rebuild(path);
@@ -1943,7 +1962,7 @@ impl Worker<'_> {
 
     fn run(&mut self, job: &Job) -> Result<(), String> {
         match &job.mode {
-            Mode::Exhaustive { depth } => {
+            Mode::Exhaustive { depth, start } => {
                 // start states: empty, one below the capacity boundary, at the boundary
                 let init = self.session.reset()?;
                 if !init.is_empty() {
@@ -1953,18 +1972,16 @@ impl Worker<'_> {
                 let m = v.modulus;
                 let cap = v.cap.min(130);
                 let mut starts: Vec<Option<Op>> = vec![None];
-                for n in dedup(vec![
-                    Op::ExtSlice(payload(cap.saturating_sub(1), 100, m)),
-                    Op::ExtSlice(payload(cap, 100, m)),
-                ]) {
-                    if let Op::ExtSlice(p) = &n {
-                        if p.is_empty() {
-                            continue;
-                        }
+                for n in [cap.saturating_sub(1), cap] {
+                    // (for capacity 1 the "cap - 1" fill is the empty start again: leave a hole)
+                    if n == 0 {
+                        starts.push(Some(Op::Clear));
+                    } else {
+                        starts.push(Some(Op::ExtSlice(payload(n, 100, m))));
                     }
-                    starts.push(Some(n));
                 }
-                for s in starts {
+                // a start fill that coincides with an earlier one (capacity 1) is skipped
+                for s in starts.into_iter().skip(*start).take(1) {
                     let mut path = vec![];
                     self.session.reset()?;
                     if let Some(op) = s {
@@ -1983,7 +2000,7 @@ impl Worker<'_> {
             Mode::Random { sequences, length, seed } => {
                 let mut rng = Rng::new(*seed);
                 for s in 0..*sequences {
-                    if self.found >= MAX_DISAGREEMENTS_PER_JOB {
+                    if self.found >= MAX_DISAGREEMENTS_PER_JOB || out_of_time() {
                         break;
                     }
                     let init = self.session.reset()?;
@@ -2052,22 +2069,32 @@ fn all_configs() -> Vec<Config> {
 }
 
 fn jobs_for(tier: &str, seed: u64) -> Vec<Job> {
-    let (depth, sequences, length) = match tier {
-        "thorough" => (4, 1500, 80),
-        _ => (3, 120, 50),
-    };
+    let thorough = tier == "thorough";
+    let (sequences, length) = if thorough { (1500, 80) } else { (120, 50) };
     let mut jobs = vec![];
     let mut rng = Rng::new(seed);
     for cfg in all_configs() {
-        // depth-4 enumeration of the larger capacities is restricted to the byte element type
-        // (the element type does not influence InlineVec's control flow)
-        let d = if depth == 4 && cfg.iv.map_or(false, |c| c >= 23) && cfg.ty != "u8" { 3 } else { depth };
-        jobs.push(Job { cfg: cfg.clone(), mode: Mode::Exhaustive { depth: d } });
+        // The element type does not influence InlineVec's control flow and the prefix only shifts
+        // ThinVec's header: the deepest enumeration is run on a representative subset, the rest
+        // one level shallower; every configuration gets the random sequences.
+        let depth = match (thorough, cfg.iv, cfg.ty, cfg.prefix) {
+            (true, Some(1 | 2 | 7), "u8", _) => 4,
+            (true, Some(1), "u64", _) | (true, Some(2), "unit" | "p16", _) | (true, Some(7), "a64", _) => 4,
+            (true, None, _, "reserved") | (true, None, "u8", "unit") | (true, None, "u64", "p32") => 4,
+            (true, _, _, _) => 3,
+            (false, Some(_), "u8", _) => 3,
+            (false, Some(2 | 23), _, _) => 3,
+            (false, Some(_), _, _) => 2,
+            (false, None, _, _) => 3,
+        };
+        for start in 0..3 {
+            jobs.push(Job { cfg: cfg.clone(), mode: Mode::Exhaustive { depth, start } });
+        }
         jobs.push(Job { cfg, mode: Mode::Random { sequences, length, seed: rng.next_u64() } });
     }
     // biggest jobs first
     jobs.sort_by_key(|j| match j.mode {
-        Mode::Exhaustive { depth } => (0, usize::MAX - depth),
+        Mode::Exhaustive { depth, .. } => (0, usize::MAX - depth),
         Mode::Random { .. } => (1, 0),
     });
     jobs
@@ -2099,7 +2126,10 @@ fn write_stats(path: &str, tier: &str, seed: u64, stats: &Stats, elapsed: f64) -
              prefix; random part: seeded sequences."
         )
     ));
-    s.push_str("  \"exhaustive\": true,\n");
+    s.push_str(&format!(
+        "  \"exhaustive\": {},\n",
+        !TRUNCATED.load(std::sync::atomic::Ordering::Relaxed) && tier != "replay"
+    ));
     s.push_str("  \"distribution\": {\n");
     let n = stats.distribution.len();
     for (i, (k, v)) in stats.distribution.iter().enumerate() {
@@ -2184,6 +2214,17 @@ fn main() {
         }
     };
     let out_path = cli.out.clone().unwrap_or_else(|| "stats.json".into());
+    if let Some(i) = cli.extra.iter().position(|a| a == "--budget-secs") {
+        match cli.extra.get(i + 1).and_then(|v| v.parse::<u64>().ok()) {
+            Some(secs) => {
+                let _ = DEADLINE.set(started + std::time::Duration::from_secs(secs));
+            }
+            None => {
+                eprintln!("vecdrive: --budget-secs needs a number");
+                std::process::exit(2);
+            }
+        }
+    }
 
     if let Some(file) = &cli.replay {
         match replay(file, &lean) {
